@@ -20,12 +20,13 @@ Outcomes == {"ok", "err"}
 
 \* entry point -> the valid templates it is fed
 Templates ==
-    [Parse               |-> {"create", "update", "recover", "deactivate"},
+    \* (*_disabled: a well-formed request whose delta uses a known patch action that the protocol does not enable)
+    [Parse               |-> {"create", "update", "recover", "deactivate", "update_disabled", "create_disabled"},
      GetRevealValue      |-> {"update", "recover", "deactivate", "create"},
      GetCommitment       |-> {"update", "recover", "deactivate", "create"},
      ParseDID            |-> {"longform"},
-     ResolveDocument     |-> {"longform"},
-     ProcessOperation    |-> {"create", "update", "recover", "deactivate"},
+     ResolveDocument     |-> {"longform", "longform_disabled"},
+     ProcessOperation    |-> {"create", "update", "recover", "deactivate", "create_disabled"},
      ParseJWS            |-> {"jws"},
      VerifyJWS           |-> {"jws", "jwk"},
      MarshalCanonical    |-> {"create", "document"},
@@ -33,7 +34,7 @@ Templates ==
      Validate            |-> {"patch_keys", "patch_services", "patch_services_objects", "patch_jsonpatch", "patch_replace", "patch_aka", "patch_remove_keys"},
      ApplyPatches        |-> {"patch_keys", "patch_services", "patch_services_objects", "patch_jsonpatch", "patch_jsonpatch_array", "patch_replace", "patch_aka",
                               "patch_remove_keys", "patch_remove_services", "patch_remove_aka", "document"},
-     Apply               |-> {"create", "update", "recover", "deactivate"},
+     Apply               |-> {"create", "update", "recover", "deactivate", "update_disabled", "create_disabled"},
      TransformDocument   |-> {"document", "patch_keys", "patch_services", "patch_services_objects"},
      OriginalDocument    |-> {"document"}]
 
